@@ -1,5 +1,5 @@
 CONSTANTS OwnSca = 500  Check = {"C21","C22","C23"}
-  MaxSteps = 5  Lats = {0, 1, 3}  DsNeg = {1, 2, 3}  DsPos = {0, 1, 2, 3, 4, 5, 6, 7, 8}  IndKinds = {"upd", "chm", "phy"}  Starts = {0, 65527}  ConnInt = 6  ConnTo = 100  Cancels = TRUE
+  MaxSteps = 5  Lats = {0, 3}  DsNeg = {1, 3}  DsPos = {0, 1, 2, 3, 8}  IndKinds = {"upd", "chm", "phy"}  Starts = {0, 65527}  ConnInt = 6  ConnTo = 100  Cancels = FALSE
 SPECIFICATION MCSpec
 INVARIANTS TypeOK WindowHit ChannelAgree PhyAgree SkipBound NoJumpOverInstant
 CHECK_DEADLOCK FALSE
